@@ -319,6 +319,27 @@ let handle (line : string) : string =
       let n = int_of_string (next ()) in
       let l = List.init n (fun i -> i) in
       Printf.sprintf "{\"exc\":null,\"res\":%s}" (jlist (jlist string_of_int) (ladder_pairs l))
+  | "minit" ->
+      let ov () = (match next () with "N" -> None | t -> Some (fl t)) in
+      let mu = ov () in let sg = ov () in let beta = ov () in let kappa = ov () in let tau = ov () in
+      let g = (match next () with "N" -> None | t -> Some (gamma_of_tag t)) in
+      let lim = (match next () with "N" -> None | t -> Some (t = "1")) in
+      Printf.sprintf "{\"exc\":null,\"res\":%s}" (state_s (model_init fnum mu sg beta kappa tau g lim))
+  | "helpers" ->
+      let beta = fl (next ()) in
+      let teams = (match read_val () with
+          | PList ts -> List.map (function
+              | PList ps -> List.map (function PRating (_, r) -> r | _ -> raise (Bad "helpers player")) ps
+              | _ -> raise (Bad "helpers team")) ts
+          | _ -> raise (Bad "helpers teams")) in
+      let ranks = (match read_val () with
+          | PNone -> None | PList ks -> Some (List.map key_of_val ks) | _ -> raise (Bad "helpers ranks")) in
+      let trs = calculate_team_ratings fnum teams ranks in
+      let c = helper_c fnum beta trs in
+      Printf.sprintf "{\"exc\":null,\"res\":{\"tr\":%s,\"c\":%s,\"sum_q\":%s,\"a\":%s}}"
+        (jlist (fun t -> Printf.sprintf "[%s,%s,%d]" (h t.t_mu) (h t.t_ss) (int_of_nat t.t_rank)) trs)
+        (h c) (jlist h (helper_sum_q fnum trs c))
+        (jlist (fun a -> string_of_int (int_of_nat a)) (helper_a trs))
   | "pysum" ->
       let n = int_of_string (next ()) in
       let l = List.init n (fun _ -> ()) |> List.map (fun () -> fl (next ())) in
